@@ -6,7 +6,7 @@
 
 namespace xmc {
 
-enum Kind : uint8_t { K_SCHED = 1, K_DATA = 2, K_RAND = 3, K_RF = 4 };
+enum Kind : uint8_t { K_SCHED = 1, K_DATA = 2, K_RAND = 3, K_RF = 4, K_SPUR = 5 };
 // cost modes of a choice point
 enum CostMode : uint8_t {
   CM_FREE = 0,     // every alternative is free (DATA, or running thread not enabled)
@@ -58,6 +58,7 @@ struct RunCfg {
   int mode;      // 0 sc, 1 wmm
   int W;         // staleness window (steps); 0 = unbounded
   int heap_reuse;
+  int spur; // > 0: a compare_exchange_weak that would succeed may fail spuriously (choice kind K_SPUR, bounded by the explorer)
   long horizon;  // scheduler steps
   long plain_horizon;
   int solo_limit; // C16: max solo steps of a lock-free op
